@@ -192,6 +192,7 @@ fn main() {
         ("Server", gen_server),
         ("Tls", gen_tls),
         ("KeepAlive", gen_keepalive),
+        ("Compression", gen_compression),
     ];
     let mut failed = false;
     for (name, f) in steps {
@@ -774,5 +775,125 @@ fn gen_keepalive(repo: &Path, g: &mut Gen) -> R<()> {
     let _ = writeln!(s, "/-- {h_rel}: `is_recoverable_error` -/\ndef ioConnectionResetRecoverable : Bool := {}\ndef ioNotConnectedRecoverable : Bool := {}\ndef quicConnectionErrorRecoverable : Bool := {quic_conn}\ndef replierAlreadyBoundRecoverable : Bool := {}",
         io_arm && io_reset, io_arm && io_notconn, open_arm && bind_code);
     g.emit("KeepAlive", &[rr_rel, ps_rel, h_rel, rq_rel], &s);
+    Ok(())
+}
+
+// -------------------------------------------------------------------------------------- compression
+
+/// the arms of the `match self.library` in a `compress` / `decompress` method: library variant -> arm tokens
+fn library_arms(src: &Src, self_ty: &str, method: &str, tr: &str) -> R<Vec<(String, String)>> {
+    let f = find_method(&src.ast, self_ty, method, Some(tr)).ok_or_else(|| Shape(format!("{}: impl {tr} for {self_ty}: fn {method} not found", src.rel)))?;
+    let m = find_match(&f.block).ok_or_else(|| Shape(format!("{}: {self_ty}::{method}: no match on the library", src.rel)))?;
+    let scrut = &m.expr;
+    if quote::quote!(#scrut).to_string() != "self . library" { return shape(&src.rel, format!("{self_ty}::{method}: the match is not on self.library")); }
+    let mut v = vec![];
+    for a in &m.arms {
+        let var = pat_variant(&a.pat).ok_or_else(|| Shape(format!("{}: {self_ty}::{method}: arm pattern not understood", src.rel)))?;
+        if a.guard.is_some() { return shape(&src.rel, format!("{self_ty}::{method}: guarded arm")); }
+        let b = &a.body;
+        v.push((var, quote::quote!(#b).to_string()));
+    }
+    Ok(v)
+}
+
+fn inherent_body(src: &Src, self_ty: &str, method: &str) -> R<String> {
+    let f = find_method(&src.ast, self_ty, method, None).ok_or_else(|| Shape(format!("{}: {self_ty}::{method} not found", src.rel)))?;
+    let b = &f.block;
+    Ok(quote::quote!(#b).to_string())
+}
+
+fn trait_body(src: &Src, self_ty: &str, method: &str, tr: &str) -> R<String> {
+    let f = find_method(&src.ast, self_ty, method, Some(tr)).ok_or_else(|| Shape(format!("{}: impl {tr} for {self_ty}: fn {method} not found", src.rel)))?;
+    let b = &f.block;
+    Ok(quote::quote!(#b).to_string())
+}
+
+fn gen_compression(repo: &Path, g: &mut Gen) -> R<()> {
+    let dc_rel = "standard/src/compression/deflate/comp.rs";
+    let dd_rel = "standard/src/compression/deflate/decomp.rs";
+    let dt_rel = "standard/src/compression/deflate/types.rs";
+    let dc = Src::load(repo, dc_rel)?;
+    let dd = Src::load(repo, dd_rel)?;
+    let dt = Src::load(repo, dt_rel)?;
+    let fmt_of = |tokens: &str, rel: &str, gz: &str, zl: &str| -> R<&'static str> {
+        match (tokens.contains(gz), tokens.contains(zl)) {
+            (true, false) => Ok("gzip"),
+            (false, true) => Ok("zlib"),
+            _ => shape(rel, format!("an arm of the library match does not name exactly one of {gz} / {zl}")),
+        }
+    };
+    let mut s = String::new();
+    let _ = writeln!(s, "inductive Library where\n  | gzip | zlib\n  deriving DecidableEq, Repr\n");
+    let _ = writeln!(s, "/-- the container format a flate2 encoder / decoder type speaks -/\ninductive Format where\n  | gzip | zlib\n  deriving DecidableEq, Repr\n");
+    let lib_of = |v: &str, rel: &str| -> R<&'static str> { match v { "Gzip" => Ok("gzip"), "Zlib" => Ok("zlib"), _ => shape(rel, format!("unknown DeflateLibrary variant {v}")) } };
+    // compress side
+    let arms = library_arms(&dc, "DeflateComp", "compress", "Compress")?;
+    let mut finished = true;
+    let _ = writeln!(s, "/-- {dc_rel}: `match self.library` in `compress` -/\ndef deflateCompFormat : Library → Format");
+    let mut seen = vec![];
+    for (v, t) in &arms {
+        let l = lib_of(v, dc_rel)?;
+        let f = fmt_of(t, dc_rel, "GzEncoder", "ZlibEncoder")?;
+        // the bytes are taken from `encoder.finish()?` after `write_all(&input)?`
+        let wi = t.find("write_all (& input) ?");
+        let fi = t.find("encoder . finish () ?");
+        finished &= matches!((wi, fi), (Some(a), Some(b)) if a < b);
+        let _ = writeln!(s, "  | .{l} => .{f}");
+        seen.push(l);
+    }
+    if seen.len() != 2 || seen[0] == seen[1] { return shape(dc_rel, "compress: the library match does not have one arm per library"); }
+    let _ = writeln!(s, "/-- every arm writes the whole input and takes the bytes from `finish()` -/\ndef deflateEncoderFinished : Bool := {finished}\n");
+    // decompress side
+    let arms = library_arms(&dd, "DeflateDecomp", "decompress", "Decompress")?;
+    let _ = writeln!(s, "/-- {dd_rel}: `match self.library` in `decompress` -/\ndef deflateDecompFormat : Library → Format");
+    let mut seen = vec![];
+    let mut whole = true;
+    for (v, t) in &arms {
+        let l = lib_of(v, dd_rel)?;
+        let f = fmt_of(t, dd_rel, "GzDecoder", "ZlibDecoder")?;
+        whole &= t.contains(":: new (& input [..])") && t.contains("read_to_end (& mut output) ?");
+        let _ = writeln!(s, "  | .{l} => .{f}");
+        seen.push(l);
+    }
+    if seen.len() != 2 || seen[0] == seen[1] { return shape(dd_rel, "decompress: the library match does not have one arm per library"); }
+    let _ = writeln!(s, "/-- every arm reads the whole input to its end -/\ndef deflateDecoderReadsAll : Bool := {whole}\n");
+    // named constructors and the default
+    for (side, src, ty, rel) in [("Comp", &dc, "DeflateComp", dc_rel), ("Decomp", &dd, "DeflateDecomp", dd_rel)] {
+        for name in ["gzip", "zlib"] {
+            let b = inherent_body(src, ty, name)?;
+            let l = match (b.contains("DeflateLibrary :: Gzip"), b.contains("DeflateLibrary :: Zlib")) {
+                (true, false) => "gzip", (false, true) => "zlib",
+                _ => return shape(rel, format!("{ty}::{name}(): does not name exactly one DeflateLibrary variant")),
+            };
+            let _ = writeln!(s, "/-- {rel}: `{ty}::{name}()` -/\ndef deflate{side}Ctor_{name} : Library := .{l}");
+        }
+        let nb = inherent_body(src, ty, "new")?;
+        if !nb.contains("library") { return shape(rel, format!("{ty}::new does not store the library it is given")); }
+    }
+    let db = trait_body(&dt, "DeflateLibrary", "default", "Default")?;
+    let dl = match (db.contains("Gzip"), db.contains("Zlib")) { (true, false) => "gzip", (false, true) => "zlib", _ => return shape(dt_rel, "Default for DeflateLibrary not understood") };
+    let _ = writeln!(s, "/-- {dt_rel}: `Default for DeflateLibrary` (both halves derive `Default` from it) -/\ndef deflateDefault : Library := .{dl}\n");
+    // the single-format algorithms: which library entry points the two halves use
+    let pairs: [(&str, &str, &str, &str, &str, &[&str], &[&str]); 3] = [
+        ("zstd", "standard/src/compression/zstd/comp.rs", "ZstdComp", "standard/src/compression/zstd/decomp.rs", "ZstdDecomp",
+            &["zstd :: encode_all (& input [..] , self . level) ?"], &["zstd :: decode_all (& input [..]) ?"]),
+        ("lz4", "standard/src/compression/lz4/comp.rs", "Lz4Comp", "standard/src/compression/lz4/decomp.rs", "Lz4Decomp",
+            &["FrameEncoder :: new (vec ! [])", "write_all (& input) ?", "encoder . finish () ?"], &["FrameDecoder :: new (& input [..])", "read_to_end (& mut buf) ?"]),
+        ("brotli", "standard/src/compression/brotli/comp.rs", "BrotliComp", "standard/src/compression/brotli/decomp.rs", "BrotliDecomp",
+            &["CompressorWriter :: with_params (vec ! [] , BUFFER_SIZE , & self . params)", "write_all (& input) ?", "encoder . flush () ?", "encoder . into_inner ()"], &["Decompressor :: new (& input [..] , BUFFER_SIZE)", "read_to_end (& mut buf) ?"]),
+    ];
+    let mut sources = vec![dc_rel, dd_rel, dt_rel];
+    for (name, c_rel, c_ty, d_rel, d_ty, c_need, d_need) in pairs {
+        let c = Src::load(repo, c_rel)?;
+        let d = Src::load(repo, d_rel)?;
+        let cb = trait_body(&c, c_ty, "compress", "Compress")?;
+        let db = trait_body(&d, d_ty, "decompress", "Decompress")?;
+        // the steps must all be present and in this order
+        let in_order = |body: &str, need: &[&str]| -> bool { let mut at = 0; for n in need { match body[at..].find(n) { Some(i) => at += i + n.len(), None => return false } } true };
+        let _ = writeln!(s, "/-- {c_rel}: `compress` is the library's whole-input encoder, finalised before the bytes are taken -/\ndef {name}CompWhole : Bool := {}", in_order(&cb, c_need));
+        let _ = writeln!(s, "/-- {d_rel}: `decompress` is the matching whole-input decoder -/\ndef {name}DecompWhole : Bool := {}", in_order(&db, d_need));
+        sources.push(c_rel); sources.push(d_rel);
+    }
+    g.emit("Compression", &sources, &s);
     Ok(())
 }
